@@ -33,7 +33,10 @@ def to_np_float(values: list) -> np.ndarray:
 
 def name(rng: random.Random) -> str:
     base = rng.choice(NAMES)
-    return base if rng.random() < 0.5 else f"{base}{rng.randrange(100)}"
+    x = rng.random()
+    if x < 0.02:
+        return "GEOSCIENCE"      # an entity named like the project node of the file
+    return base if x < 0.5 else f"{base}{rng.randrange(100)}"
 
 
 def gen_object_args(rng: random.Random, cls: str) -> dict:
